@@ -267,7 +267,7 @@ void constructCommon(ModelSignature model,
                         manager.complete(x[id]);
                         any_done = true;
                     }
-                    if ((grid.getNumLoaded() < 1000) || (double(complete.getNumStored()) / double(grid.getNumLoaded()) > 0.2))
+                    if ((grid.getNumLoaded() < TSG_VERIF_EAGER_LOAD) || (double(complete.getNumStored()) / double(grid.getNumLoaded()) > 0.2))
                         load_complete(); // move from complete into the grid
                     TSG_VERIF_EVENT("pc_collect", {(long long) id, (long long) (size_t) x[id].data(), (long long) x[id].size(),
                                                    (long long) (size_t) y[id].data(), (long long) y[id].size(),
@@ -342,7 +342,7 @@ void constructCommon(ModelSignature model,
                 manager.complete(x);
 
                 // the fist thousand points can be loaded one at a time, then add when % increase of the grid is achieved
-                if ((grid.getNumLoaded() < 1000) || (double(complete.getNumStored()) / double(grid.getNumLoaded()) > 0.2))
+                if ((grid.getNumLoaded() < TSG_VERIF_EAGER_LOAD) || (double(complete.getNumStored()) / double(grid.getNumLoaded()) > 0.2))
                     load_complete(); // also does checkpoint save
                 TSG_VERIF_EVENT("pc_seq_store", {(long long) (size_t) x.data(), (long long) x.size(), (long long) (size_t) y.data(), (long long) y.size(),
                                                  (long long) complete.getNumStored(), (long long) grid.getNumLoaded(),
